@@ -145,7 +145,57 @@ func matchFinding(fs []finding, property, fp string) *finding {
 			return f
 		}
 	}
-	return nil
+	// name-set fingerprints ("<clause>/<role>=<group>[@<position>]:<n1>+<n2>+..."):
+	// the group label and the way names are grouped are derived from tables of
+	// the tree under test, which a refactoring may rearrange without changing
+	// any behaviour. Such a fingerprint is a listed finding when EVERY name of
+	// it is listed for the same clause, role and position (under whatever
+	// group); a name that is listed nowhere keeps it unlisted.
+	key, names, ok := nameSetKey(fp)
+	if !ok {
+		return nil
+	}
+	var first *finding
+	for _, n := range names {
+		found := false
+		for i := range fs {
+			f := &fs[i]
+			if f.property != property {
+				continue
+			}
+			k2, names2, ok2 := nameSetKey(f.fp)
+			if !ok2 || k2 != key {
+				continue
+			}
+			for _, n2 := range names2 {
+				if n2 == n {
+					found = true
+					if first == nil {
+						first = f
+					}
+				}
+			}
+		}
+		if !found {
+			return nil
+		}
+	}
+	return first
+}
+
+// nameSetKey splits a name-set fingerprint into (clause/role + position, names).
+func nameSetKey(fp string) (key string, names []string, ok bool) {
+	colon := strings.LastIndex(fp, ":")
+	eq := strings.LastIndex(fp, "=")
+	if colon < 0 || eq < 0 || eq > colon || colon == len(fp)-1 {
+		return "", nil, false
+	}
+	group := fp[eq+1 : colon]
+	pos := ""
+	if at := strings.LastIndex(group, "@"); at >= 0 {
+		pos = group[at:]
+	}
+	return fp[:eq+1] + pos, strings.Split(fp[colon+1:], "+"), true
 }
 
 var unsafeRe = regexp.MustCompile(`[^A-Za-z0-9_.-]+`)
